@@ -5,6 +5,7 @@ after it) never happens, or one backend call fails for good, under several compl
 crash point lies inside upload()/upload_stream()."""
 from __future__ import annotations
 
+import io
 import os
 import shutil
 from pathlib import Path
@@ -13,6 +14,7 @@ from crosshair.tracers import NoTracing
 
 from vt import rt, world
 from vt.core import digits, shard, tick
+from vt.lift import AnchorMissing
 from vt.harness import hist
 from vt.harness.gc import R, Repository, exceptions, fresh_repo, users
 
@@ -248,10 +250,14 @@ def local_crash_case(op, step, pre, size_i):
             f = LB_real_ntf(**kw)
             point()                                      # empty temp file exists
             return f
-        saved = (LB.Path, LB.shutil, LB.NamedTemporaryFile)
+        # (NamedTemporaryFile is hooked only if the module uses it: another way of naming temporaries is not an error)
+        has_ntf = hasattr(LB, 'NamedTemporaryFile')
+        saved = (LB.Path, LB.shutil, getattr(LB, 'NamedTemporaryFile', None))
         global LB_real_ntf
         LB_real_ntf = saved[2]
-        LB.Path, LB.shutil, LB.NamedTemporaryFile = PPath, PShutil, PTemp
+        LB.Path, LB.shutil = PPath, PShutil
+        if has_ntf:
+            LB.NamedTemporaryFile = PTemp
         try:
             be = LB.Local(str(root))
             if op == 'upload':
@@ -259,7 +265,9 @@ def local_crash_case(op, step, pre, size_i):
             else:
                 be.upload_stream(name, io.BytesIO(new), len(new), chunk)
         finally:
-            LB.Path, LB.shutil, LB.NamedTemporaryFile = saved
+            LB.Path, LB.shutil = saved[:2]
+            if has_ntf:
+                LB.NamedTemporaryFile = saved[2]
         if not frozen.exists():
             shutil.copytree(root, frozen)                # step beyond the last point: the command completed
         # ---- fresh process on the surviving tree
@@ -304,8 +312,8 @@ def e_local_crash(k: int) -> bool:
 
 def e_temp_name(k: int) -> bool:
     """Temporary files created by upload(): in the destination's directory, name ends in .tmp and is at most 255 bytes,
-    for object names whose last component has any length up to 255 (observed through NamedTemporaryFile, whatever the
-    helper that creates them is called).
+    for object names whose last component has any length up to 255 (observed as the source of the publishing rename,
+    however the temporary is created).
     pre: 1 <= k <= 255
     post: _
     """
@@ -313,13 +321,13 @@ def e_temp_name(k: int) -> bool:
     with NoTracing():
         with world.scratch('c03t') as d:
             made = []
-            real = LB.NamedTemporaryFile
 
-            def rec(**kw):
-                f = real(**kw)
-                made.append(Path(f.name))
-                return f
-            LB.NamedTemporaryFile = rec
+            class RPath(type(Path())):
+                def replace(self, target):
+                    made.append(Path(str(self)))          # the source of the atomic rename is the temporary file
+                    return super().replace(target)
+            real = LB.Path
+            LB.Path = RPath
             try:
                 be = LB.Local(str(d))
                 name = 'data/aa/' + 'x' * n
@@ -329,10 +337,125 @@ def e_temp_name(k: int) -> bool:
                     tick('e_temp_name', [n, 'oserror'])
                     return n > 250          # names close to the file-system limit may be refused, never mangled
             finally:
-                LB.NamedTemporaryFile = real
+                LB.Path = real
+            if not made:
+                raise AnchorMissing('Local.upload no longer publishes through Path.replace: temporary names cannot be observed')
             ok = be.download(name) == b'payload' and list(be.list_files('')) == [name]
             for t in made:
                 if t.parent != (d / 'data/aa') or not t.name.endswith('.tmp') or len(t.name.encode()) > 255 or t.exists():
                     ok = False
             tick('e_temp_name', [n, len(made)])
             return ok
+
+
+
+# --------------------------------------------------------------------------- two uploaders of one name, killed in between (C03_d)
+class _Stepper:
+    """Runs fn(stream) in a thread that stops before every read() of its stream until the driver lets it go on."""
+
+    def __init__(self, fn, data):
+        import threading
+        self.go, self.at_gate, self.done = threading.Event(), threading.Event(), False
+        self.error = None
+        outer = self
+
+        class S(io.BytesIO):
+            def read(self, n=-1):
+                outer.at_gate.set()
+                outer.go.wait()
+                outer.go.clear()
+                return super().read(n)
+
+        def run():
+            try:
+                fn(S(data))
+            except BaseException as e:      # noqa
+                self.error = e
+            finally:
+                self.done = True
+                self.at_gate.set()
+        self.t = threading.Thread(target=run, daemon=True)
+        self.t.start()
+        self.at_gate.wait(20)
+
+    def step(self, n=1):
+        """Let the uploader perform n reads (and everything up to the next one)."""
+        for _ in range(n):
+            if self.done:
+                return
+            self.at_gate.clear()
+            self.go.set()
+            if not self.at_gate.wait(60):
+                raise RuntimeError('uploader did not reach its next read within 60 s')
+
+    def finish(self):
+        while not self.done:
+            self.step()
+        self.t.join(5)
+
+
+def two_uploaders_case(same, size_i, i, j, pre):
+    """Two threads of one process (two snapshot workers that both saw exists() == False) stream an object to the same name.
+    A performs i reads, B performs j reads, A runs to completion, and the process is killed: the tree at that instant, and
+    the tree after B has finished as well, show the object complete (A's or B's payload, or the previous object) or not at all."""
+    import io as _io
+    import shutil
+    chunk = 8192          # >= the buffer of the file object the backend writes through, so every piece reaches the file at once
+    size = [1, chunk, 3 * chunk + 1, 5 * chunk][size_i]
+    pa = bytes((k * 7 + 3) % 251 for k in range(size))
+    pb = [pa, bytes((k * 5 + 1) % 251 for k in range(size + 9)), bytes((k * 5 + 1) % 251 for k in range(max(size - chunk - 3, 1)))][same]
+    old = b'OLD-CONTENT' if pre else None
+    name = 'data/ab/cd/ef-0123'
+    with world.scratch('c03w') as d:
+        root = d / 'repo'
+        (root / 'data/ab/cd').mkdir(parents=True)
+        if old is not None:
+            (root / name).write_bytes(old)
+        be = LB.Local(str(root))
+        A = _Stepper(lambda st: be.upload_stream(name, st, len(pa), chunk), pa)
+        A.step(i)
+        B = _Stepper(lambda st: be.upload_stream(name, st, len(pb), chunk), pb)
+        B.step(j)
+        A.finish()
+        frozen = d / 'frozen'
+        shutil.copytree(root, frozen)
+        B.finish()
+        allowed = {pa, pb} | ({old} if old is not None else set())
+
+        def examine(tree, label, may_be_absent):
+            be2 = LB.Local(str(tree))
+            listed = sorted(be2.list_files(''))
+            if [n for n in listed if n != name]:
+                return f'{label}: unexpected names listed {listed}'
+            if name in listed:
+                got = be2.download(name)
+                if got not in allowed:
+                    return f'{label}: object visible with {len(got)} bytes - neither payload ({len(pa)}/{len(pb)} bytes) nor the previous object'
+            elif not may_be_absent:
+                return f'{label}: object absent'
+            return None
+        # at the kill instant A has completed: the object must be there, complete
+        msg = examine(frozen, f'killed after A finished (A read {i}, B read {j} pieces before)', False)
+        if msg is None:
+            msg = examine(root, 'after both uploaders finished', False)
+        if msg is None and (A.error is not None or B.error is not None):
+            msg = f'an uploader failed: A={A.error!r} B={B.error!r}'
+        if msg is None:
+            left = [p.name for p in (root / 'data/ab/cd').iterdir() if p.name != 'ef-0123']
+            if left:
+                msg = f'leftovers after both uploads completed: {left}'
+        return (msg is None), (msg or '')
+
+
+def e_two_uploaders(k: int) -> bool:
+    """
+    pre: shard(3 * 4 * 5 * 6 * 2)[0] <= k < shard(3 * 4 * 5 * 6 * 2)[1]
+    post: _
+    """
+    same, size_i, i, j, pre = digits(k, [3, 4, 5, 6, 2])
+    with NoTracing():
+        ok, msg = two_uploaders_case(same, size_i, i, j, bool(pre))
+        tick('e_two_uploaders', [same, size_i, i, j, pre])
+        if not ok:
+            _say(msg)
+        return ok
